@@ -62,13 +62,6 @@ type treapWorld struct {
 	vers []*rffldb.VerifTreapImmutable
 	mut  *rffldb.VerifTreapMutable
 	it   *rffldb.VerifTreapIterator
-
-	// history of the iterator, used only to classify a divergence: a
-	// ForceReseek while positioned leaves a seek key that First/Last/Seek do
-	// not clear (known defect)
-	seekPending bool
-	seekStale   bool
-	consumed    bool
 }
 
 type forEacher interface {
@@ -161,9 +154,6 @@ func (w *treapWorld) bound(i int) []byte {
 // step applies one specification step and compares; it returns a description
 // of the first difference.
 func (w *treapWorld) step(l, obs tla.Value) (string, int64) {
-	if w.consumed {
-		w.seekStale, w.consumed = false, false
-	}
 	switch l.F("a").Str() {
 	case "Init":
 		w.vers = []*rffldb.VerifTreapImmutable{rffldb.VerifNewImmutable()}
@@ -179,32 +169,25 @@ func (w *treapWorld) step(l, obs tla.Value) (string, int64) {
 	case "MPut":
 		w.mut.Put(w.tc.key[l.F("k").Int()], w.tc.val[l.F("x").Str()])
 		if w.it != nil {
-			w.seekPending = w.seekPending || w.it.Valid()
 			w.it.ForceReseek()
 		}
 	case "MDelete":
 		w.mut.Delete(w.tc.key[l.F("k").Int()])
 		if w.it != nil {
-			w.seekPending = w.seekPending || w.it.Valid()
 			w.it.ForceReseek()
 		}
 	case "NewIter":
 		w.it = w.mut.Iterator(w.bound(l.F("lo").Int()), w.bound(l.F("hi").Int()))
 	case "First":
 		w.it.First()
-		w.seekStale = w.seekPending
 	case "Last":
 		w.it.Last()
-		w.seekStale = w.seekPending
 	case "Next":
 		w.it.Next()
-		w.seekPending, w.consumed = false, true
 	case "Prev":
 		w.it.Prev()
-		w.seekPending, w.consumed = false, true
 	case "Seek":
 		w.it.Seek(w.tc.key[l.F("k").Int()])
-		w.seekStale = w.seekPending
 	default:
 		return "unknown action " + l.String(), 0
 	}
@@ -280,9 +263,6 @@ func runTreap(ctx *vrun.Ctx, cfg string, maxPaths int) error {
 				}
 				a := st.To.State["last"].F("a").Str()
 				key := "treap:" + a
-				if (a == "Next" || a == "Prev") && w.seekStale {
-					key = "treap:iterator-stale-seek-key"
-				}
 				ctx.Violation(key, d, map[string]any{"config": cfg, "steps": trace})
 				break
 			}
